@@ -43,7 +43,18 @@ pub fn uc_truth(c: &Check, xs: &[Exchange]) -> Truth {
             match r.grammatical {
                 Some(true) => Truth { usable: Some(true), doc: r.doc.clone(), why: "ok".into(), err: None },
                 Some(false) => Truth { usable: Some(false), doc: None, why: "ungrammatical".into(), err: Some(ErrRec::ResponseParser) },
-                None => Truth { usable: None, doc: None, why: "unknown body".into(), err: None },
+                None => {
+                    // tampered / arbitrary bytes: whether they still form a response document is not
+                    // known in general, but bytes that are not JSON at all (after the optional
+                    // anti-XSSI prefix) certainly are not one
+                    let b = r.body.strip_prefix(b")]}'\n").unwrap_or(&r.body);
+                    let json = serde_json::from_slice::<serde_json::Value>(b).is_ok() || serde_json::from_str::<serde_json::Value>(&String::from_utf8_lossy(b)).is_ok();
+                    if json {
+                        Truth { usable: None, doc: None, why: "unknown body".into(), err: None }
+                    } else {
+                        Truth { usable: Some(false), doc: None, why: "not JSON".into(), err: Some(ErrRec::ResponseParser) }
+                    }
+                }
             }
         }
     }
